@@ -935,13 +935,17 @@ func (d *Data) resync(ctx *datastore.VersionedCtx) {
 				binary.LittleEndian.PutUint32(buf, indexMap[i])
 				writerCh <- &storage.TKeyValue{K: NewTypeLabelTKey(i, label), V: buf}
 				writerCh <- &storage.TKeyValue{K: NewTypeSizeLabelTKey(i, indexMap[i], label)}
-				allsyn += indexMap[i]
+				if i == PostSyn || i == PreSyn || i == Gap {
+					allsyn += indexMap[i] // AllSyn counts synaptic elements only, as the sync handler does
+				}
 			}
 		}
-		buf := make([]byte, 4)
-		binary.LittleEndian.PutUint32(buf, allsyn)
-		writerCh <- &storage.TKeyValue{K: NewTypeLabelTKey(AllSyn, label), V: buf}
-		writerCh <- &storage.TKeyValue{K: NewTypeSizeLabelTKey(AllSyn, allsyn, label)}
+		if allsyn > 0 {
+			buf := make([]byte, 4)
+			binary.LittleEndian.PutUint32(buf, allsyn)
+			writerCh <- &storage.TKeyValue{K: NewTypeLabelTKey(AllSyn, label), V: buf}
+			writerCh <- &storage.TKeyValue{K: NewTypeSizeLabelTKey(AllSyn, allsyn, label)}
+		}
 
 		totLabels++
 		if totLabels%10000 == 0 {
